@@ -99,6 +99,36 @@ def consume(ck, cfg, cases_path, results_path, roots, stats):
     return n
 
 
+def ceiling_leg(ck, binp, tier, stats, cases_path):
+    """Size boundary: the model's sizes are relative to the abstract request budget `Bound`. The main replay reads
+    Bound as 8 bytes; this leg replays a spread of the same behaviours with Bound read as the protocol ceiling
+    (MAX_EXTERNAL_ACTION_SETTLEMENT_BYTES_V1): requests declare the maximum budget, "s2" settles with a result of
+    exactly that many bytes, "oversized" with one more. Predicted classes are unchanged."""
+    want = 300 if tier == "quick" else 3000
+    picked = []
+    with open(cases_path) as f:
+        for line in f:
+            c = json.loads(line)
+            if any(isinstance(st, list) and st[0] == "settle" and st[2] in ("s2", "oversized") and st[4] in ("Ok", "WalStore", "Crashed", "SettlementBudgetExceeded")
+                   for st in c["steps"]):
+                picked.append(c)
+    if not picked:
+        raise ToolError("ceiling leg: no behaviour settles at or above the bound")
+    stride = max(1, len(picked) // want)
+    sel = picked[::stride][:want]
+    for c in sel:
+        c["scale"] = "ceiling"
+    cin = write_ndjson(os.path.join(WORK, "c17_ceiling.cases"), sel)
+    cout = os.path.join(WORK, "c17_ceiling.results")
+    t0 = time.time()
+    out = harness(binp, ["c17", cin, cout], timeout=3600)
+    log(f"[c17] ceiling scale: {len(sel)} of {len(picked)} boundary behaviours replayed in {time.time() - t0:.1f}s: {out.strip().splitlines()[-1]}")
+    got = consume(ck, "ceiling", cin, cout, {"by_key": {}, "by_root": {}}, stats)
+    if got != len(sel):
+        raise ToolError(f"ceiling leg: harness result count mismatch ({got} != {len(sel)})")
+    stats.setdefault("per_cfg", {})["ceiling"] = {"behaviours": len(sel), "boundary_behaviours_available": len(picked)}
+
+
 def trace_leg(ck, binp, tier, stats):
     """TV: seeded random runs over many request ids, validated by ExtActionTrace.tla."""
     if not os.path.exists(os.path.join(SPEC, "ExtActionTrace.tla")):
@@ -188,6 +218,8 @@ def run(tier, replay=None):
                 raise ToolError(f"{cfg}: harness result count mismatch ({got} != {n})")
             total += n
             stats.setdefault("per_cfg", {})[cfg] = {"behaviours": n, "states": res.distinct, "tlc_s": round(res.wall, 1)}
+        ceiling_leg(ck, binp, tier, stats, os.path.join(WORK, f"c17_{cfgs[0].replace('.cfg', '')}.cases"))
+        total += stats["per_cfg"]["ceiling"]["behaviours"]
         trace_leg(ck, binp, tier, stats)
     if total == 0:
         raise ToolError("nothing replayed")
